@@ -87,7 +87,72 @@ def build_insert(conn, what):
         return c
     if what == "SHD":
         return ServerHelloDone().create()
+    if what == "CR":
+        from tlslite.messages import CertificateRequest
+        from tlslite.extensions import SignatureAlgorithmsExtension
+        algs = [(4, 1), (8, 4), (4, 3), (8, 7), (2, 1)]
+        cr = CertificateRequest(v if v >= (3, 0) else (3, 3))
+        if v >= (3, 4):
+            return cr.create(context=b"", extensions=[
+                SignatureAlgorithmsExtension().create(algs)])
+        return cr.create([1, 64, 2], [], algs)
+    if what == "CV":
+        body = bytearray(b"\x08\x04\x00\x40") + bytearray(64)
+        return RawMsg(ContentType.handshake, bytearray([15]) +
+                      len(body).to_bytes(3, "big") + body)
+    if what == "CKE":
+        body = bytearray(b"\x20") + bytearray(b"\x09" + b"\x00" * 31)
+        return RawMsg(ContentType.handshake, bytearray([16]) +
+                      len(body).to_bytes(3, "big") + body)
+    if what == "SKE":
+        body = bytearray(b"\x03\x00\x1d\x20" + b"\x09" + b"\x00" * 31)
+        return RawMsg(ContentType.handshake, bytearray([12]) +
+                      len(body).to_bytes(3, "big") + body)
+    if what == "EE":
+        return RawMsg(ContentType.handshake,
+                      bytearray(b"\x08\x00\x00\x02\x00\x00"))
+    if what == "CSTATUS":
+        return RawMsg(ContentType.handshake,
+                      bytearray(b"\x16\x00\x00\x04\x01\x00\x00\x00"))
+    if what == "HS99":
+        return RawMsg(ContentType.handshake,
+                      bytearray(b"\x63\x00\x00\x01\x00"))
     raise ValueError(what)
+
+
+class Tap(object):
+    """Passive observer of one (untouched) endpoint: one ordered log of the
+    messages it consumed (as _getNextRecord handed them over) and the messages it sent.  Nothing is altered."""
+
+    def __init__(self, conn):
+        self.log = []
+        self.conn = conn
+        orig_next = conn._getNextRecord
+
+        def get_next_record():
+            for r in orig_next():
+                if r not in (0, 1):
+                    header, parser = r
+                    if getattr(header, "ssl2", False):
+                        self.log.append(("recv", "CH"))
+                    else:
+                        self.log.append(("recv", token_of(
+                            RawMsg(header.type, parser.bytes))))
+                yield r
+        conn._getNextRecord = get_next_record
+        orig_send = conn._sendMsg
+        orig_queue = conn._queue_message
+
+        def send(msg, randomizeFirstBlock=True, update_hashes=True):
+            if update_hashes or type(msg) is not Message:
+                self.log.append(("send", token_of(msg)))
+            return orig_send(msg, randomizeFirstBlock, update_hashes)
+
+        def queue(msg):
+            self.log.append(("send", token_of(msg)))
+            return orig_queue(msg)
+        conn._sendMsg = send
+        conn._queue_message = queue
 
 
 class Puppet(object):
